@@ -22,10 +22,10 @@ macro_rules! read_harness {
             match r {
                 Ok(v) => {
                     assert!(fits);
-                    assert!(off == off0 + $w);
+                    assert!(Some(off) == off0.checked_add($w));
                     let expect = ref_uint(data, off0, $w, $little) as $ty;
                     assert!(v == expect);
-                    kani::cover!(off0 > 0 && off0 + $w == len, "ok read touching end of buffer");
+                    kani::cover!(off0 > 0 && off0.wrapping_add($w) == len, "ok read touching end of buffer");
                 }
                 Err(e) => {
                     assert!(!fits);
@@ -34,7 +34,7 @@ macro_rules! read_harness {
                     match e {
                         ParseError::IntegerOverflow => { assert!(off0.checked_add($w).is_none()); }
                         ParseError::SliceReadError((s, t)) => {
-                            assert!(s == off0 && t == off0 + $w);
+                            assert!(s == off0 && Some(t) == off0.checked_add($w));
                         }
                         _ => { assert!(false); }
                     }
